@@ -285,7 +285,7 @@ OUTSIDE = ('programs are covered by induction on one step from an arbitrary vali
            'anything other than the public operations; non-finite operands')
 STUBS = ['gearpy.units.unit_base.fabs -> ite / fpAbs']
 ASSUMPTIONS = ['invariant: every live Length/Surface/InertiaMoment/TimeInterval > 0, Angle >= 0',
-               'R mode: doubles as reals; Float64 mode: bit-precise, all finite doubles, 60 s per query']
+               'R mode: doubles as reals; Float64 mode: bit-precise, all finite doubles, 300 s per query']
 EXPLANATION = ('Symbolic execution of the real unit classes: the invariant is assumed on the operands and proved on every '
                'live object after one operation, on every path (including the paths on which the operation raises).')
 MANIFEST = dict(
@@ -296,7 +296,7 @@ MANIFEST = dict(
                'constructors accept only physical parameters. The same operations are decided bit-precisely over all finite '
                'doubles (denormals included) for the strictly positive kinds.',
     level_note='One step from an arbitrary valid state covers histories of any length (the invariant is the sign constraint itself); '
-               'unit pairs exhaustive for the constrained kinds; FP queries capped at 60 s each.',
+               'unit pairs exhaustive for the constrained kinds; FP queries capped at 300 s each.',
     technique='symbolic execution of the real Python code + z3 (LRA; QF_FP over all finite doubles); concrete replay',
     design_ref='DESIGN.md section 5 C19',
 )
